@@ -239,6 +239,21 @@ func runC12(c *fw.Ctx) {
 					if !evaluate(tp, tt, p, t, want.Data[0], "") {
 						return
 					}
+					if k.Rng.Intn(4) == 0 { // the loss is back-propagated, then read out AGAIN from the same prediction object (now spent, holding a gradient if it was tracked)
+						var bl tensor.Tensor
+						if pn := call(func() {
+							if bl, err = obj.Compute(tp, tt); err == nil {
+								err = tensor.BackPropagate(bl)
+							}
+						}); pn != nil || err != nil {
+							k.Failf("%s.Compute + BackPropagate on one object (shape %v): panic=%v err=%v", kind, shape, pn, err)
+							return
+						}
+						k.Count("evaluations_of_a_prediction_that_was_back_propagated_before", 1)
+						if !evaluate(tp, tt, p, t, want.Data[0], " (the prediction object took part in a back-propagation before)") {
+							return
+						}
+					}
 					if k.Rng.Intn(3) == 0 { // the next call shares exactly one tensor OBJECT with this one (the targets, or the predictions)
 						q := Shuffled(k.Rng, p)
 						if k.Rng.Intn(2) == 0 {
